@@ -65,6 +65,47 @@ impl Ctx {
 
 pub use refcodec::evidence::sharded;
 
+/// Run the same check in the plain release build (no overflow checks, no debug assertions) and absorb its report:
+/// code whose behaviour depends on the build profile must satisfy the property in both.
+pub fn also_in_release_build(report: &mut refcodec::evidence::Report, id: &str, ctx: &Ctx) {
+    if std::env::var("VERIF_DUMP_JSON").is_ok() {
+        return; // we are the child
+    }
+    let Some(bin) = std::env::var("VERIF_REL_BIN").ok().filter(|p| std::path::Path::new(p).exists()) else {
+        report.inconclusive("release-profile binary not available (VERIF_REL_BIN): the release-build pass was not run");
+        return;
+    };
+    let work = std::env::var("VERIF_WORK").unwrap_or_else(|_| "/verif/.build/main".into());
+    let out = format!("{work}/rel-{id}-{}.json", std::process::id());
+    let st = std::process::Command::new(&bin)
+        .args([id, "--tier", &ctx.tier, "--seed", &ctx.seed.to_string()])
+        .env("VERIF_DUMP_JSON", &out)
+        .env("VERIF_NO_MIRI", "1")
+        .stdout(std::process::Stdio::null())
+        .stderr(std::process::Stdio::null())
+        .status();
+    match (st, std::fs::read_to_string(&out)) {
+        (Ok(_), Ok(text)) => match serde_json::from_str::<serde_json::Value>(&text) {
+            Ok(mut v) => {
+                if let Some(arr) = v["violations"].as_array_mut() {
+                    for x in arr.iter_mut() {
+                        let sig = x["signature"].as_str().unwrap_or("").to_string();
+                        x["signature"] = serde_json::json!(format!("[release build] {sig}"));
+                    }
+                }
+                // the child's samples / rule are the same as ours: only counts and violations matter
+                v["samples"] = serde_json::json!([]);
+                report.absorb_json(&v);
+                report.extra.insert("also_run_in_the_plain_release_build".into(), serde_json::json!(true));
+            }
+            Err(e) => report.inconclusive(&format!("release-build pass: unreadable result: {e}")),
+        },
+        (st, _) => report.inconclusive(&format!("release-build pass did not finish normally ({st:?})")),
+    }
+    let _ = std::fs::remove_file(&out);
+}
+
+
 fn main() {
     let argv: Vec<String> = std::env::args().collect();
     if argv.len() < 2 {
